@@ -109,6 +109,14 @@ theorem tlsParserMany_fails_iff (i : List β) :
     (tlsParserMany i).isOk = (parsePlaintext i).isOk :=
   many1_complete_fails_iff parsePlaintext parsePlaintext_clean parsePlaintext_consumes i
 
+/-! non-vacuity (kernel-evaluated): two records then garbage - exactly the two records, remainder = the garbage;
+    garbage first - failure; an application-data record of length 0 is a record like any other -/
+example : tlsParserMany (β := Fin 256) [20, 3, 3, 0, 1, 1, 21, 3, 3, 0, 2, 1, 0, 99, 9]
+    = .ok [99, 9] [⟨⟨20, 771, 1⟩, [.changeCipherSpec]⟩, ⟨⟨21, 771, 2⟩, [.alert 1 0]⟩] := by decide +kernel
+example : (tlsParserMany (β := Fin 256) [99, 3, 3, 0, 1, 1]).isOk = false := by decide +kernel
+example : tlsParserMany (β := Fin 256) [23, 3, 3, 0, 0, 23, 3, 3, 0, 0]
+    = .ok [] [⟨⟨23, 771, 0⟩, [.applicationData []]⟩, ⟨⟨23, 771, 0⟩, [.applicationData []]⟩] := by decide +kernel
+
 /-- the deprecated `tls_parser` is `parse_tls_plaintext` -/
 theorem tlsParser_eq (i : List β) : tlsParser i = parsePlaintext i := rfl
 
